@@ -357,6 +357,11 @@ func (fgen *funcGen) irInvokeTerm(new ir.Terminator, old *ast.InvokeTerm) error 
 		return errors.WithStack(err)
 	}
 	sig, ok := typ.(*types.FuncType)
+	if ok {
+		if err := checkCallArgs(sig, term.Args); err != nil {
+			return errors.WithStack(err)
+		}
+	}
 	if !ok {
 		// Preliminary function signature. Only used by fgen.irValue for inline
 		// assembly invokees and constrant expressions.
@@ -465,6 +470,11 @@ func (fgen *funcGen) irCallBrTerm(new ir.Terminator, old *ast.CallBrTerm) error 
 		return errors.WithStack(err)
 	}
 	sig, ok := typ.(*types.FuncType)
+	if ok {
+		if err := checkCallArgs(sig, term.Args); err != nil {
+			return errors.WithStack(err)
+		}
+	}
 	if !ok {
 		// Preliminary function signature. Only used by fgen.irValue for inline
 		// assembly callees and constrant expressions.
